@@ -43,7 +43,7 @@ theorem C04_copy (c : CallSt) (left : Nat) (input : Bytes) (cap : Nat)
   unfold CallSt.writeBodyPhase
   have h1 : (!input.isEmpty && c.writer.ended) = false := by
     cases input <;> simp_all
-  simp only [h1, BodyWriter.leftToSend, hm, Bool.false_eq_true, if_false]
+  simp only [h1, BodyWriter.overLimit, BodyWriter.leftToSend, hm, Bool.false_eq_true, if_false]
   have h2 : decide (input.length > left) = false := by simp; omega
   simp only [h2, Bool.false_eq_true, if_false, BodyWriter.write, hm, W.available, List.length_nil, Nat.sub_zero]
   rw [take_fits cap input _ (by omega)]
@@ -54,7 +54,7 @@ theorem C04_refuse_over (c : CallSt) (left : Nat) (input : Bytes) (cap : Nat)
     (hm : c.writer.mode = .sized left) (hover : input.length > left) (hne : c.writer.ended = false) :
     c.writeBodyPhase input cap = (c, .error (.api .bodyLargerThanContentLength)) := by
   unfold CallSt.writeBodyPhase
-  simp [hne, BodyWriter.leftToSend, hm, hover]
+  simp [hne, BodyWriter.overLimit, BodyWriter.leftToSend, hm, hover]
 
 /-- **C04 (refusal: after the end).** Any non-empty write after the body is finished is refused with the
     state unchanged (whatever its length). -/
